@@ -87,7 +87,7 @@ def c01():
 # ------------------------------------------------------------------------------------------- C03
 @prop('C03')
 def c03():
-    qs = [Q('counter', 'C03/counter.cpp', 2)]
+    qs = [Q('counter', 'C03/counter.cpp', 2), Q('times', 'C03/times.cpp', 4, defs={'VF_CLAIM': 3}, timeout=300)]
     for r in (0, 9):
         qs.append(Q('run_regime%d' % r, 'C03/run.cpp', 4, defs={'VF_REGIME': r}, timeout=600))
     for r in (1, 2):
@@ -257,13 +257,12 @@ SEQKERN_BOUND = ('seq/kern: N<=3 (quick) / 4 (thorough) real handles in 1..2 rea
 
 def seqstep_queries(nn, quick_only=None):
     qs = []
-    quick = [((1, 1, 1), 0, 0), ((1, 1, 1), 0, 1), ((1, 1, 1), 0, 2), ((1, 1, 1), 1, 1), ((1, 1, 1), 1, 0), ((1, 1, 1), 2, 2),
-             ((1, 3, 2), 0, 1), ((1, 3, 2), 0, 2), ((3, 3, 3), 0, 2), ((1, 0, 1), 0, 2), ((1, 0, 1), 0, 1), ((3, 1, 2), 0, 2)]
-    thorough = []
+    quick = [((1, 1, 1), 0, 1), ((1, 1, 1), 0, 2), ((1, 3, 2), 0, 2), ((1, 1, 1), 1, 1), ((1, 0, 1), 0, 2)]
+    thorough = [((1, 1, 1), 0, 0), ((1, 1, 1), 1, 0), ((1, 1, 1), 2, 2), ((1, 3, 2), 0, 1), ((3, 3, 3), 0, 2), ((1, 0, 1), 0, 1), ((3, 1, 2), 0, 2)]
     for mb in ((1, 1, 1), (1, 3, 2), (3, 3, 3), (1, 0, 1), (3, 1, 2), (2, 3, 1), (1, 2, 3), (3, 3, 1)):
         for gone in (0, 1, 2, 3, 4, 5):
             for call in (0, 1, 2):
-                if (mb, gone, call) not in quick: thorough.append((mb, gone, call))
+                if (mb, gone, call) not in quick and (mb, gone, call) not in thorough: thorough.append((mb, gone, call))
     if quick_only is not None:
         quick, thorough = quick[:quick_only], quick[quick_only:]
     for tier, shapes in (('quick', quick), ('thorough', thorough)):
@@ -291,7 +290,7 @@ def c05():
 @prop('C06')
 def c06():
     return dict(
-        queries=seqkern_queries(6) + seqstep_queries(6, quick_only=4),
+        queries=seqkern_queries(6) + seqstep_queries(6, quick_only=2),
         level='model_checking',
         level_text='Bounded: is_completed() iff every listed handle is satisfied, before and after a real call; sequence destruction reports once, non-fatally, exactly the listed expectations in registration order and detaches them; empty teardown is silent; released / saturated handles leave.',
         bound=SEQKERN_BOUND + '; ' + SEQSTEP_BOUND,
